@@ -1,4 +1,4 @@
 From Coq Require Extraction.
 From Coq Require Import ExtrOcamlBasic.
-From NV Require Import Base.Witness Sinks.Sink Sinks.Mt Sinks.Format Sinks.MtApp Sinks.IndexCalls Sinks.AsyncSink Sinks.IndexBgzf Sinks.CramCalls.
-Extraction "model.ml" nv_types_witness write_all sink_flush lw_run lw_out bw_run ideal_sink mt_model mt_nblocks fob_run cram_run mta_model mta_pol bai_write_index gzi_write_index as_write_all afq_run as_run csi_life tbi_life x_accepted c_csi c_tbi cramc_run cc_wf.
+From NV Require Import Base.Witness Sinks.Sink Sinks.Mt Sinks.Format Sinks.MtApp Sinks.IndexCalls Sinks.AsyncSink Sinks.IndexBgzf Sinks.CramCalls Sinks.FaiCalls.
+Extraction "model.ml" nv_types_witness write_all sink_flush lw_run lw_out bw_run ideal_sink mt_model mt_nblocks fob_run cram_run mta_model mta_pol bai_write_index gzi_write_index as_write_all afq_run as_run csi_life tbi_life x_accepted c_csi c_tbi cramc_run cc_wf fai_write_index.
